@@ -13,6 +13,12 @@ from ..core import Ctx, coq_eval_shards, g_bool, g_list, g_nat, g_opt, g_pair, p
 SUFFIXES = [".txt", ".bin", ".png"]
 
 
+def suffix_of(d, suf):
+    """the suffix of the stored file: the defaults for str / bytes, a custom one (letters only, or with a digit) for suf == 2"""
+    return SUFFIXES[suf] if suf < 2 else (".png" if d % 2 == 0 else ".mp3")
+
+
+
 def payload(d, suf):
     s = f"payload-{d}-" + "x" * (d % 7)
     return s if suf == 0 else s.encode()
@@ -23,7 +29,7 @@ def data_expr(d, suf):
         return f"outsource({payload(d, 0)!r})"
     if suf == 1:
         return f"outsource({payload(d, 1)!r})"
-    return f"outsource({payload(d, 2)!r}, suffix='.png')"
+    return f"outsource({payload(d, 2)!r}, suffix={suffix_of(d, 2)!r})"
 
 
 def sha(d, suf):
@@ -135,7 +141,7 @@ def run_history(item):
                 del tests[step[1]]
             else:
                 for t in tests:
-                    known[(sha(t["d"], t["suf"]), SUFFIXES[t["suf"]])] = (t["d"], t["suf"])
+                    known[(sha(t["d"], t["suf"]), suffix_of(t["d"], t["suf"]))] = (t["d"], t["suf"])
                 tfile.write_text(render_tests(tests, conf.get("late_import"), conf.get("module_level")))
                 flags = [c for c in ("create", "fix", "trim") if step[1][c]]
                 cwd = tdir if (conf.get("subdir") and nsession % 2 == 1) else d
@@ -143,6 +149,10 @@ def run_history(item):
                 if outer is not None and nsession % 2 == 0:
                     cwd, extra = outer, ["pkg"]
                 nsession += 1
+                if "hash_length_later" in conf and nsession == 3 and outer is None:
+                    # the setting changes in the life of the project: references written with the old length stay valid and in use
+                    later = [x for x in tool if not x.startswith("hash-length")] + ([f"hash-length = {conf['hash_length_later']}"] if conf["hash_length_later"] else [])
+                    (d / "pyproject.toml").write_text("[tool.inline-snapshot]\n" + "\n".join(later) + "\n")
                 if step[1].get("review"):
                     r = driver.run_pytest(cwd, ["--inline-snapshot=review"] + extra, stdin=(step[1]["review"] + "\n").encode() * 8)
                 else:
@@ -167,7 +177,7 @@ def run_history(item):
                         continue
                     a = call.args[0]
                     name = a.args[0].value
-                    m = re.fullmatch(r"([0-9a-f]*)\*?(\.[a-z]+)", name)
+                    m = re.fullmatch(r"([0-9a-f]*)\*?(\.[a-z0-9]+)", name)
                     cands = [v for k, v in known.items() if k[0].startswith(m.group(1)) and k[1] == m.group(2)]
                     if len(cands) != 1:
                         problems.append(f"reference {name!r} matches {len(cands)} known data items")
@@ -179,7 +189,7 @@ def run_history(item):
                     for p in sorted(store_dir.iterdir()):
                         if p.name == ".gitignore":
                             continue
-                        m = re.fullmatch(r"([0-9a-f]{64})(-new)?(\.[a-z]+)", p.name)
+                        m = re.fullmatch(r"([0-9a-f]{64})(-new)?(\.[a-z0-9]+)", p.name)
                         if not m:
                             problems.append(f"unexpected file name {p.name}")
                             continue
@@ -298,7 +308,8 @@ def run(ctx: Ctx):
     for i in range(n):
         conf = [{}, {"hash_length": 8}, {"hash_length": 64}, {"storage_dir": "snaps/store"}, {"late_import": True}, {"storage_dir": "snaps/store", "subdir": True},
                 {"late_import": True, "hash_length": 8}, {"subdir": True}, {"module_level": True}, {"workspace": True}, {"module_level": True, "hash_length": 8},
-                {"workspace": True, "hash_length": 8}][i % 12]
+                {"workspace": True, "hash_length": 8}, {"hash_length": 8, "hash_length_later": None}, {"hash_length": 6, "hash_length_later": 20},
+                {"hash_length": 20, "hash_length_later": 8}][i % 15]
         items.append((gen_history(ctx.rng), conf))
     outs = tmap(run_history, items)
     terms, idx = [], []
